@@ -16,11 +16,11 @@ from fsmc.ref import mesh as RM
 PID = "C19"
 RULE = ("configurations of (lattice family, size, jitter pattern, helper ring, cut-off, pose) within the deviation bound; "
         "non-trivial = at least two cells sharing a ridge; classes = (family, size, ring, cut-off level, pose)")
-BOUND = {"quick": "deviation bound 2 around the centre of 3 families (square, hexagonal, jittered) with sizes 3x3..6x6, plus one 300-point set",
+BOUND = {"quick": "deviation bound 2 around the centre of 7 families (square, two hexagonal, jittered, scattered, planted triangle, square with ridges a few thousandths long) with sizes 3x3..6x6 and poses incl. pixel-like coordinates far from the origin, plus one 300-point set",
          "thorough": "deviation bound 3, sizes up to 10x10 and 300 points with all poses"}
 ASSUMPTIONS = ["the reference reads the same scipy.spatial.Voronoi diagram (regions, vertices) but interprets it independently",
                "corners that coincide after rounding to three decimals are one vertex (degenerate Voronoi vertices of exact lattices)"]
-REQUIRED_TAGS = {"all": ["vertical_ridge", "exact_square", "exact_hex", "jittered", "ring", "cutoff_drops", "shared_ridge", "n>=200", "triangular_region", "random"]}
+REQUIRED_TAGS = {"all": ["vertical_ridge", "exact_square", "exact_hex", "jittered", "ring", "cutoff_drops", "shared_ridge", "n>=200", "triangular_region", "random", "short_ridges", "far_from_origin"]}
 
 
 def centres(spec):
@@ -47,6 +47,13 @@ def centres(spec):
         for i in range(nx):
             if fam == "square":
                 pts.append((float(i), float(j)))
+            elif fam == "sqjit":
+                # square lattice with a jitter of a few thousandths: every four-fold Voronoi vertex splits into two corners joined
+                # by a ridge a few thousandths long (just above the three-decimal resolution)
+                idx = j * nx + i
+                u = math.modf(math.sin((idx + 1) * 12.9898 + pat * 78.233) * 43758.5453)[0]
+                w = math.modf(math.sin((idx + 1) * 39.3468 + pat * 11.135) * 24634.6345)[0]
+                pts.append((i + 0.004 * u, j + 0.004 * w))
             elif fam == "hex":
                 pts.append((i + 0.5 * (j % 2), j * math.sqrt(3) / 2))
             elif fam == "hexflat":
@@ -72,6 +79,8 @@ def pose(pts, p, scale):
             x, y = x - 7.25 * scale, y + 3.5 * scale
         elif p == "mirror":
             x = -x
+        elif p == "far":
+            x, y = x + 1500.0 * scale, y + 2200.0 * scale       # pixel-like coordinates far from the origin
         out.append((x, y))
     return out
 
@@ -131,7 +140,7 @@ class Tessellations(ProductSystem):
 
     def axes(self, base):
         return {"size": self.sizes, "pat": [0, 1, 2, 3], "ring": [False, True], "cut": ["inf", "default", "mid", "tight"],
-                "pose": ["none", "quarter", "rot", "shift", "mirror"], "scale": [1.0, 10.0, 0.1],
+                "pose": ["none", "quarter", "rot", "shift", "mirror", "far"], "scale": [1.0, 10.0, 0.1],
                 "corder": ["asbuilt", "reversed", "interleaved"]}       # order in which the centres are listed (the tessellation is a set property)
 
     def eval_config(self, base, cfg):
@@ -142,7 +151,9 @@ class Tessellations(ProductSystem):
             pts = list(pts)[::-1]
         elif cfg.get("corder") == "interleaved":
             pts = list(pts)[::2] + list(pts)[1::2]
-        tags = [{"square": "exact_square", "hex": "exact_hex", "hexflat": "exact_hex", "jit": "jittered", "rand": "random", "tri": "planted_triangle"}[base]]
+        tags = [{"square": "exact_square", "hex": "exact_hex", "hexflat": "exact_hex", "jit": "jittered", "rand": "random", "tri": "planted_triangle", "sqjit": "short_ridges"}[base]]
+        if cfg["pose"] == "far":
+            tags.append("far_from_origin")
         if cfg["ring"]:
             extra, ex = fsutil.call(ft.add_voronoi_centers, list(pts))
             if ex is not None:
@@ -220,7 +231,7 @@ class Tessellations(ProductSystem):
 def build(tier, seed):
     sizes = [[4, 4], [3, 3], [3, 5], [6, 6], [5, 4]]
     if tier == "quick":
-        return [Tessellations("lattices-d3", ["square", "hex", "hexflat", "jit", "rand", "tri"], 3, sizes),
+        return [Tessellations("lattices-d3", ["square", "hex", "hexflat", "jit", "rand", "tri", "sqjit"], 3, sizes),
                 Tessellations("large", ["jit", "hex", "rand"], 1, [[20, 15], [17, 12]])]
-    return [Tessellations("lattices-d3", ["square", "hex", "hexflat", "jit", "rand", "tri"], 3, sizes + [[10, 10], [8, 3]]),
+    return [Tessellations("lattices-d3", ["square", "hex", "hexflat", "jit", "rand", "tri", "sqjit"], 3, sizes + [[10, 10], [8, 3]]),
             Tessellations("large", ["jit", "hex", "square"], 2, [[20, 15], [17, 12]])]
